@@ -25,7 +25,7 @@ ASSUMPTIONS = ["'irregular spacing' is read as gaps that vary over the range: ne
                "default tbin=0.1 only; inputs are float64, sorted, one dimensional",
                "held-out times lie inside the span of the returned pairs (no extrapolation claim)",
                "the drift tolerance assumes the reported drift is a least-squares slope over the returned pairs"]
-BUDGET = {"quick": 16000, "thorough": 500000}
+BUDGET = {"quick": 12000, "thorough": 400000}
 SHRINK = {"quick": True, "thorough": True}
 
 TOL_MAP = 1e-3          # s, "millisecond-scale tolerance" of the statement
